@@ -92,7 +92,10 @@ TypeName(ty) == CASE ty = "date" -> "PlainDate" [] ty = "time" -> "PlainTime" []
 Base == IF last.op = "with" THEN last.recv ELSE IF last.ty = "yearmonth" THEN YM(0, 0, 1) ELSE DT(Date(0, 0, 0), MidnightRec)
 CaseCls == Cls(last.ty, last.op, Base, last.p, last.ovf)
 CaseOf ==
-  IF last.op = "with" THEN
+  IF last.op = "with" /\ "era" \in DOMAIN last THEN
+    [op |-> "PlainDate.with", cls |-> CaseCls \o "/era-" \o last.era[1],
+     args |-> [recv |-> last.recv @@ [cal |-> "gregory"], p |-> [k \in (DOMAIN last.p \ {"year"}) |-> last.p[k]], era |-> last.era[1], eraYear |-> last.era[2], ovf |-> last.ovf], out |-> last.out]
+  ELSE IF last.op = "with" THEN
     [op |-> TypeName(last.ty) \o ".with", cls |-> CaseCls, args |-> [recv |-> last.recv, p |-> last.p, ovf |-> last.ovf], out |-> last.out]
   ELSE IF last.op = "from_partial" THEN
     [op |-> TypeName(last.ty) \o ".from_partial", cls |-> CaseCls,
